@@ -309,3 +309,208 @@ def degree(node: ast.AST, in_set: Callable[[str], bool], binds=None, zero_calls_
 
 
 DEG_ANY = -999
+
+
+# ------------------------------------------------------------------------------------------------------- sign / monotone
+INF = float('inf')
+
+
+def _imul(a, b):
+    c = []
+    for x in a:
+        for y in b:
+            if (x == 0 and abs(y) == INF) or (y == 0 and abs(x) == INF):
+                c.append(0.0)
+            else:
+                c.append(x * y)
+    return (min(c), max(c))
+
+
+def interval(node: ast.AST, atom_iv: Callable[[str], Optional[Tuple[float, float]]], binds=None, _memo=None) -> Tuple[float, float]:
+    """Interval of an expression given intervals of its atoms (unknown atoms: (-inf, inf)).  Linear reducers are treated
+    as sign-preserving (their result lies in the hull of 0 and the scaled element interval: only signs are meaningful)."""
+    binds = binds or {}
+    memo = _memo if _memo is not None else {}
+
+    def go(n, b):
+        if isinstance(n, ast.Constant) and isinstance(n.value, (int, float)) and not isinstance(n.value, bool):
+            return (float(n.value), float(n.value))
+        if isinstance(n, ast.UnaryOp) and isinstance(n.op, ast.USub):
+            lo, hi = go(n.operand, b)
+            return (-hi, -lo)
+        if isinstance(n, ast.UnaryOp) and isinstance(n.op, ast.UAdd):
+            return go(n.operand, b)
+        if isinstance(n, ast.BinOp):
+            a, c = go(n.left, b), go(n.right, b)
+            if isinstance(n.op, ast.Add):
+                return (a[0] + c[0], a[1] + c[1])
+            if isinstance(n.op, ast.Sub):
+                return (a[0] - c[1], a[1] - c[0])
+            if isinstance(n.op, ast.Mult):
+                return _imul(a, c)
+            if isinstance(n.op, ast.Div):
+                if c[0] > 0 or c[1] < 0:
+                    inv = (1.0 / c[1] if abs(c[1]) != INF else 0.0, 1.0 / c[0] if abs(c[0]) != INF else 0.0)
+                    return _imul(a, (min(inv), max(inv)))
+                if c[0] >= 0:      # divisor >= 0 (possibly 0): sign information only
+                    return (0.0 if a[0] >= 0 else -INF, 0.0 if a[1] <= 0 else INF)
+                return (-INF, INF)
+            if isinstance(n.op, ast.Pow):
+                if a[0] > 0:
+                    return (0.0, INF)
+                if isinstance(n.right, ast.Constant) and isinstance(n.right.value, int) and n.right.value % 2 == 0:
+                    return (0.0, INF)
+                return (-INF, INF)
+            return (-INF, INF)
+        if isinstance(n, ast.Call):
+            d = dotted_name(n.func) or ''
+            if d in LINEAR_WRAPPERS and n.args:
+                lo, hi = go(n.args[0], b)
+                if lo > 0:
+                    return (1e-300, INF)
+                if lo >= 0:
+                    return (0.0, INF)
+                if hi < 0:
+                    return (-INF, -1e-300)
+                if hi <= 0:
+                    return (-INF, 0.0)
+                return (-INF, INF)
+            if d in ('np.power', 'pow') and len(n.args) == 2:
+                base = go(n.args[0], b)
+                return (1e-300, INF) if base[0] > 0 else (-INF, INF)
+            if d in ('np.exp', 'math.exp'):
+                return (1e-300, INF)
+            if d in ('abs', 'np.abs', 'math.fabs', 'np.sqrt', 'math.sqrt'):
+                return (0.0, INF)
+            if d in ('np.linspace', 'np.arange') and n.args:
+                first = go(n.args[0], b)
+                return (first[0], INF) if first[0] >= 0 else (-INF, INF)
+            if d in ('max', 'np.maximum') and n.args:
+                ivs = [go(a, b) for a in n.args]
+                return (max(i[0] for i in ivs), max(i[1] for i in ivs))
+            if d in ('min', 'np.minimum') and n.args:
+                ivs = [go(a, b) for a in n.args]
+                return (min(i[0] for i in ivs), min(i[1] for i in ivs))
+            iv = atom_iv(norm(n))
+            return iv if iv is not None else (-INF, INF)
+        if isinstance(n, (ast.Name, ast.Attribute)):
+            key = norm(n)
+            d = b.get(key)
+            if d is not None and d.expr is not None:
+                if id(d) in memo:
+                    return memo[id(d)]
+                memo[id(d)] = (-INF, INF)
+                memo[id(d)] = go(d.expr, d.binds)
+                return memo[id(d)]
+            iv = atom_iv(key)
+            return iv if iv is not None else (-INF, INF)
+        if isinstance(n, ast.Subscript):
+            return go(n.value, b)
+        return (-INF, INF)
+    return go(node, binds)
+
+
+UP, DOWN, CONST, UNKNOWN = 'up', 'down', 'const', 'unknown'
+
+
+def _flip(m):
+    return {UP: DOWN, DOWN: UP}.get(m, m)
+
+
+def _join(a, b):
+    if a == CONST:
+        return b
+    if b == CONST:
+        return a
+    return a if a == b else UNKNOWN
+
+
+def monotone(node: ast.AST, var: str, atom_iv: Callable[[str], Optional[Tuple[float, float]]], binds=None) -> str:
+    """Monotonicity (non-strict) of the expression in the atom `var`: up / down / const / unknown."""
+    binds = binds or {}
+    memo: Dict[int, str] = {}
+
+    def sgn(n, b):
+        lo, hi = interval(n, atom_iv, b)
+        if lo >= 0:
+            return 1
+        if hi <= 0:
+            return -1
+        return 0
+
+    def go(n, b) -> str:
+        if isinstance(n, ast.Constant):
+            return CONST
+        if isinstance(n, ast.UnaryOp) and isinstance(n.op, ast.USub):
+            return _flip(go(n.operand, b))
+        if isinstance(n, ast.UnaryOp):
+            return go(n.operand, b)
+        if isinstance(n, ast.BinOp):
+            l, r = go(n.left, b), go(n.right, b)
+            if isinstance(n.op, ast.Add):
+                return _join(l, r)
+            if isinstance(n.op, ast.Sub):
+                return _join(l, _flip(r))
+            if isinstance(n.op, ast.Mult):
+                if l == CONST and r == CONST:
+                    return CONST
+                if l == CONST or r == CONST:
+                    c, v = (n.left, r) if l == CONST else (n.right, l)
+                    s = sgn(c, b)
+                    return v if s > 0 else _flip(v) if s < 0 else UNKNOWN
+                # both vary: product of two non-negative functions moving the same way
+                if l == r and l in (UP, DOWN) and sgn(n.left, b) > 0 and sgn(n.right, b) > 0:
+                    return l
+                return UNKNOWN
+            if isinstance(n.op, ast.Div):
+                if r == CONST:
+                    s = sgn(n.right, b)
+                    return l if s > 0 else _flip(l) if s < 0 else UNKNOWN
+                if l == CONST:
+                    sn, sd = sgn(n.left, b), sgn(n.right, b)
+                    if sd == 0 or sn == 0:
+                        return UNKNOWN
+                    # c / f(x): decreasing in f when c and f have fixed signs (c/f, f>0, c>0)
+                    return _flip(r) if sn * 1 > 0 else r
+                return UNKNOWN
+            if isinstance(n.op, ast.Pow):
+                if r == CONST and isinstance(n.right, ast.Constant) and isinstance(n.right.value, (int, float)) and n.right.value > 0 and sgn(n.left, b) > 0:
+                    return l
+                return UNKNOWN if (l != CONST or r != CONST) else CONST
+            return UNKNOWN
+        if isinstance(n, ast.Call):
+            d = dotted_name(n.func) or ''
+            if d in LINEAR_WRAPPERS and n.args:
+                return go(n.args[0], b)
+            if d in ('np.exp', 'math.exp', 'np.sqrt', 'math.sqrt', 'np.log', 'math.log', 'erf', 'math.erf') and n.args:
+                return go(n.args[0], b)
+            if d in ('erfc', 'math.erfc') and n.args:
+                return _flip(go(n.args[0], b))
+            if d in ('max', 'min', 'np.maximum', 'np.minimum') and n.args:
+                r = CONST
+                for a in n.args:
+                    r = _join(r, go(a, b))
+                return r
+            ms = [go(a, b) for a in n.args] + [go(k.value, b) for k in n.keywords]
+            return CONST if all(m == CONST for m in ms) else UNKNOWN
+        if isinstance(n, (ast.Name, ast.Attribute)):
+            key = norm(n)
+            if key == var:
+                return UP
+            d = b.get(key)
+            if d is not None and d.expr is not None:
+                if id(d) in memo:
+                    return memo[id(d)]
+                memo[id(d)] = UNKNOWN
+                memo[id(d)] = go(d.expr, d.binds)
+                return memo[id(d)]
+            return CONST
+        if isinstance(n, ast.Subscript):
+            return go(n.value, b)
+        if isinstance(n, (ast.List, ast.Tuple)):
+            r = CONST
+            for e in n.elts:
+                r = _join(r, go(e, b))
+            return r
+        return UNKNOWN
+    return go(node, binds)
